@@ -1,8 +1,8 @@
 use regex::Regex;
 fn main() {
-    for p in ["(\u{1fd3}ccccc|c)", "(?x)\n  (\n    \\u{1fd3}ccccc\n    |\n    c\n  )", "(?:\u{1fd3}ccccc|c)", "(zccccc|c)", "(\u{1fd3}cc|c)"] {
+    for p in ["(?:\\s\u{390}\u{390}\u{390}|\u{390}\u{390})", "(?x)\n  (?:\n    \\s\\u{390}\\u{390}\\u{390}\n    |\n    \\u{390}\\u{390}\n  )"] {
         let re = Regex::new(p).unwrap();
-        for t in ["\u{1fd3}ccccc", "zccccc", "\u{1fd3}cc"] {
+        for t in ["\u{2029}\u{390}\u{390}\u{390}", "\u{390}\u{390}", " \u{390}\u{390}\u{390}"] {
             println!("{:?} on {:?}: {:?}", p, t, re.find(t).map(|m| (m.start(), m.end())));
         }
     }
